@@ -105,6 +105,10 @@ def safe_int(x, default=-12345):
         return default
 
 
+class _Accepted(Exception):
+    """a window that must be refused was accepted (see convert)"""
+
+
 class _Hang(BaseException):
     """raised by the alarm when one conversion + reconstruction exceeds its time allowance"""
 
@@ -252,6 +256,10 @@ def run_impl_inner(case, data):
                 if case.get("nsamples"):
                     kw["nsamples"] = case["nsamples"]
                 conv.init_params(**kw)
+                if case["W"] < 576 and case["W"] % 12 == 0 and case["ns"] > case["W"]:
+                    # accepted although it must be refused; the real window loop would now run (and write) forever
+                    raise _Accepted("init_params accepted nwindow=%d; process() not run (it would never terminate)"
+                                    % case["W"])
                 st = conv.process() if overwrite is None else conv.process(overwrite=overwrite)
                 return conv, safe_int(st)
             finally:
@@ -291,13 +299,15 @@ def run_impl_inner(case, data):
                                 if archive.exists() else []) if x not in archive_before][:6]
 
         try:
-            if case["W"] < 576 and case["W"] % 12 == 0 and case["ns"] > case["W"]:
-                raise RuntimeError("harness guard: this window/length pair makes the real loop run forever")
             conv, obs["status"] = convert()
         except _Hang:
             raise
         except BaseException as e:      # noqa
             obs["error"] = ("convert", type(e).__name__, str(e)[:200])
+            try:                         # a refusal must not leave anything behind
+                obs["written"] = sorted(q.name for q in raw_dir.iterdir() if q.name not in ("probe00", "archive")) + stray()
+            except BaseException:       # noqa
+                obs["written"] = ["?"]
             return obs
         try:                             # the original recording and its metadata must be left as they were
             meta_same = f.with_suffix(".meta").read_text() == mtxt
@@ -371,10 +381,9 @@ def run_impl_inner(case, data):
 # property oracle (independent of the Coq model)
 # --------------------------------------------------------------------------
 def expected_status(W):
-    if W % 12 != 0:
+    """init_params refuses windows that are not multiples of 12 or not above the 576-sample overlap (repo 904fe91)"""
+    if W % 12 != 0 or W <= 576:
         return ("convert", "AssertionError")
-    if W == 576:
-        return ("convert", "ZeroDivisionError")
     return None
 
 
@@ -391,8 +400,15 @@ def oracle(case, data, obs):
     bad = []
     exp_err = expected_status(case["W"])
     if exp_err:
-        if not obs["error"] or obs["error"][:2] != exp_err:
-            bad.append(("badparams", "window size %d accepted or wrong exception: %s" % (case["W"], obs["error"])))
+        if not obs["error"] or tuple(obs["error"][:2]) != exp_err:
+            lost = ""
+            if not obs["error"] and obs.get("shanks"):
+                rows = [int(x["raw"].size // max(1, len(x["chns"]))) for x in obs["shanks"]]
+                lost = "; process() returned %r and wrote %s of %d samples per shank" % (obs.get("status"), rows, case["ns"])
+            bad.append(("badparams", "nwindow=%d must be refused by init_params (AssertionError) but: %s%s"
+                        % (case["W"], obs["error"] or "accepted", lost)))
+        elif obs.get("written"):
+            bad.append(("badparams", "nwindow=%d was refused but left %s behind" % (case["W"], obs["written"][:3])))
         return bad
     if obs["error"]:
         extra = (" (new files next to the link targets instead: %s)" % obs["stray"][:3]) if obs.get("stray") else ""
@@ -790,9 +806,10 @@ def gen_cases(ctx):
                           "wfloat": k % 7 == 3, "access": ["plain", "plain", "link_dir", "plain", "relative"][k % 5]
                           if k % 4 == 0 else "plain"})
             k += 1
-    # windows not above the hard-coded overlap, on recordings no longer than the window (these terminate):
-    # known finding F-C03-b when samples are dropped; ns == W is lossless
-    for W, ns in [(300, 200), (564, 563), (564, 564), (300, 300), (288, 200), (240, 200), (420, 150)] + (
+    # windows not above the hard-coded overlap (multiples of 12): init_params must refuse them (repo 904fe91; before,
+    # they lost samples, never terminated or divided by zero), whatever the recording length
+    for W, ns in [(300, 200), (564, 563), (564, 564), (300, 300), (288, 200), (240, 200), (420, 150),
+                  (300, 1000), (12, 500), (564, 600), (576, 576)] + (
             [(12 * rng.randrange(13, 48), 0) for _ in range(12)] if ctx.thorough() else []):
         ns = ns or rng.randrange(144, W + 1)
         nap = rng.choice([2, 3, 384]) if W == 300 else rng.choice([1, 2, 4])
@@ -917,6 +934,7 @@ def run(ctx):
         dist["conversions"] += 1
         malformed = expected_status(case["W"]) is not None
         dist["malformed_window"] += malformed
+        dist["window_below_overlap"] += case["W"] <= 576 and case["W"] % 12 == 0
         dist["shorter_than_taper"] += case["ns"] < 144
         lc = guarded(ctx, dsc, "layout", layout_case, case, obs) if (malformed or not obs["error"]) else None
         inp, out = lc if lc else (None, None)
@@ -941,8 +959,6 @@ def run(ctx):
         dist["compressed_shanks"] += bool(case.get("compress"))
         if case.get("compress") and obs.get("compressed_left_bin"):
             ctx.fail("compress=True left the uncompressed shank .bin next to the .cbin", dsc, {"kind": "compress"})
-        if W < 576:
-            dist["window_below_overlap"] += 1
         dist["shorter_than_overlap"] += ns <= 576 and W > 576
         nw = (max(-(-(ns - W) // (W - 576)), 0) + 1) if W > 576 else 1
         dist["nap384"] += nap == 384
